@@ -37,6 +37,8 @@ TOLERANCES = {"permutation-default": 1e-6,    # [4.3e-9] of the peak field
               "rotation-tight": 1e-5,         # [7.1e-8]
               # default single-sphere truncation (qeps1 = 1e-5 of Q_ext)
               "one-sphere-vs-mie": 1e-3,      # [1.1e-4; 3e-4 at x = 26]
+              "one-sphere-vs-mie-far-default": 1e-3,   # [2.3e-4]
+              "one-sphere-vs-mie-far-tight": 1e-6,     # [2.7e-8]
               "weak-coupling": "0.25 x^3 / (k d)",   # [0.05 of it]
               "displaced-sphere": 1e-5,       # [2.2e-7]
               "auto-vs-explicit": "bit-identical"}
@@ -323,6 +325,26 @@ def _run_perm(case, ck):
             ck.metric("one-sphere-vs-mie", e)
             ck.true("one-sphere-vs-mie", e <= TOLERANCES["one-sphere-vs-mie"], "one-sphere cluster "
                     "differs from the single-sphere solution by %.2e" % e)
+            # ... and on detectors millimetres away (k r = 1e4 .. 1e5),
+            # each judged against its own largest field
+            for dist in (800.0, 8000.0):
+                far = H.det_points([(POS[i][0] + dist * a, POS[i][1] +
+                                     dist * b, POS[i][2] - dist * c)
+                                    for a, b, c in ((0.0, 0.0, 1.0),
+                                                    (0.3, 0.1, 0.9),
+                                                    (0.6, -0.5, 0.6),
+                                                    (0.1, 0.9, 0.2))])
+                ff = _field(far, _spheres(sub), Multisphere(meth=meth, **kw))
+                gf = _field(far, s, Mie(False, True))
+                ck.trans += 2
+                e = float(np.abs(ff - gf).max() / np.abs(gf).max())
+                ck.metric("one-sphere-vs-mie-far-" + opt, e)
+                ck.true("one-sphere-vs-mie-far", e <=
+                        TOLERANCES["one-sphere-vs-mie-far-" + opt],
+                        "one-sphere "
+                        "cluster differs from the single-sphere solution by "
+                        "%.2e on a detector %g away (%s options)" %
+                        (e, dist, opt))
         fps.append(fp_values(base))
     # the two interaction-equation solvers solve the same equations
     return digest(*fps)
